@@ -48,6 +48,8 @@ __all__ = [
 ]
 
 _VALIDATION_ENABLED: ContextVar[bool] = ContextVar("_VALIDATION_ENABLED", default=True)
+# number of disable blocks currently entered (blocks entered by generators need not be left in LIFO order)
+_DISABLE_DEPTH: ContextVar[int] = ContextVar("_DISABLE_DEPTH", default=0)
 
 
 @contextmanager
@@ -65,11 +67,15 @@ def disable_message_validation(ignore=False):
     ```
     """
     if not ignore:
-        token = _VALIDATION_ENABLED.set(False)
+        _DISABLE_DEPTH.set(_DISABLE_DEPTH.get() + 1)
+        _VALIDATION_ENABLED.set(False)
         try:
             yield
         finally:
-            _VALIDATION_ENABLED.reset(token)
+            depth = _DISABLE_DEPTH.get() - 1
+            _DISABLE_DEPTH.set(depth)
+            if depth <= 0:
+                _VALIDATION_ENABLED.set(True)
     else:
         yield  # dummy context
 
